@@ -27,6 +27,9 @@ const (
 // AppTopics are the topics that have an application inbox.
 var AppTopics = []lib.Topic{lib.Topic_CONSENSUS, lib.Topic_BLOCK, lib.Topic_BLOCK_REQUEST, lib.Topic_TX, lib.Topic_PEERS_RESPONSE, lib.Topic_PEERS_REQUEST}
 
+// HeartbeatEvery is the ping period of a connection (p2p/conn.go heartbeatInterval).
+const HeartbeatEvery = p2p.VerifHeartbeatEvery
+
 // Node is a real p2p.P2P object (never Start()ed: no listener, no dialing; peers are joined over net.Pipe).
 type Node struct {
 	*p2p.P2P
@@ -37,12 +40,18 @@ type Node struct {
 }
 
 // NewNode creates a p2p module with the idx-th deterministic BLS key, its peer book in dir.
-func NewNode(dir string, idx int, chain uint64) *Node {
+func NewNode(dir string, idx int, chain uint64) *Node { return NewNodeWith(dir, idx, chain, nil) }
+
+// NewNodeWith is NewNode with a hook to adjust the (default) configuration.
+func NewNodeWith(dir string, idx int, chain uint64, adjust func(*lib.Config)) *Node {
 	cfg := lib.DefaultConfig()
 	cfg.ChainId = chain
 	cfg.DataDirPath = dir
 	_ = os.MkdirAll(dir, 0o755)
 	cfg.ListenAddress = ":0"
+	if adjust != nil {
+		adjust(&cfg)
+	}
 	key := BLSKey(idx)
 	var log lib.LoggerI = lib.NewNullLogger()
 	if os.Getenv("P2PSIM_LOG") != "" {
